@@ -1,6 +1,8 @@
 // Harness for C03 (the two decoders and the two encoders are interchangeable).
 //
 //	c03 facts                      : key sets of the two decoder tables (through the verif hook)
+//	c03 srcfacts -repo DIR [-out F] : source facts (delegating / separately written decoder and encoder pairs, position-relative
+//	                                 SR decoders), see srcfacts.go; F = coq/c03/C03Facts.v
 //	c03 corr   -seed S -n N -exh L : D lines (shape lists through DecodeFile and DecodeFileSR: grouping observables)
 //	                                 and E lines (decoded File structure with per-box encodings + File.Encode / EncodeSW bytes)
 //	c03 search -seed S -n N        : the property itself on testdata files, harvested boxes and their mutants
@@ -35,6 +37,8 @@ func main() {
 	seed := fs.Uint64("seed", 0, "seed")
 	n := fs.Int("n", 1000, "volume")
 	exh := fs.Int("exh", 2, "exhaustive shape-list length")
+	repo := fs.String("repo", "/repo", "srcfacts: repository whose sources are analysed")
+	outv := fs.String("out", "", "srcfacts: path of the generated .v file")
 	switch os.Args[1] {
 	case "facts":
 		r, s := mp4.VerifDecoderKeys()
@@ -44,6 +48,11 @@ func main() {
 		for _, k := range s {
 			fmt.Fprintf(out, "S\t%x\n", k)
 		}
+	case "srcfacts":
+		_ = fs.Parse(os.Args[2:])
+		rc := cmdSrcFacts(*repo, *outv)
+		out.Flush()
+		os.Exit(rc)
 	case "worker":
 		cmdWorker()
 	case "corr":
